@@ -59,7 +59,17 @@ def main() -> int:
     return run(prop, args.tier, args.repo)
 
 
+def _alarm(signum, frame):  # pragma: no cover
+    print("ANALYSIS-ERROR analysis exceeded its time budget")
+    sys.stdout.flush()
+    os._exit(2)
+
+
 if __name__ == "__main__":
+    import signal
+
+    signal.signal(signal.SIGALRM, _alarm)
+    signal.alarm(int(os.environ.get("VERIF_TIME_BUDGET", "600")))
     try:
         code = main()
     except SystemExit:
